@@ -558,7 +558,11 @@ class Bits:
                 offset = 0
             if offset < 0:
                 raise bitstring.CreationError(f"The offset of {offset} bits cannot be negative.")
-            m = mmap.mmap(source.fileno(), 0, access=mmap.ACCESS_READ)
+            try:
+                m = mmap.mmap(source.fileno(), 0, access=mmap.ACCESS_READ)
+            except ValueError:
+                # An empty file can't be memory mapped.
+                m = source.read()
             if offset == 0:
                 self._filename = source.name
                 self._bitstore = BitStore.frombuffer(m, length=length)
